@@ -4,6 +4,7 @@ from hypothesis import strategies as st
 
 from ..core import Clause, Violation, guard
 from .. import oracles as O
+from ..harness import npcosts
 
 PROPERTY = "C04"
 LEVEL = "exploration"
@@ -67,7 +68,7 @@ def history(draw, max_steps=30):
     return {"cmp": cmpk, "eps": eps, "ops": ops, "perm": list(perm), "trunc": trunc,
             # design vectors: all different, or all equal (repeated / noisy evaluations of one design: members must be
             # told apart by identity, never by design-point equality)
-            "same_vector": draw(st.booleans())}
+            "same_vector": draw(st.booleans()), "np": draw(st.booleans())}
 
 
 def _mk_cmp(case):
@@ -114,7 +115,7 @@ def check_history(case):
             classes.add("dominated-by-late-member")
         with guard("archive"):
             ind = Individual([0.5] if case.get("same_vector") else [float(step)])
-            ind.costs_signed = list(v)
+            ind.costs_signed = npcosts(v, case.get("np"))
             ret = arch.add(ind)
         offered.append(tv)
         objs.append(ind)
@@ -150,7 +151,7 @@ def check_history(case):
         for i in case["perm"]:
             if i < len(vectors):
                 ind = Individual([0.0])
-                ind.costs_signed = list(vectors[i])
+                ind.costs_signed = npcosts(vectors[i], case.get("np"))
                 arch2.add(ind)
     a1 = sorted(tuple(o.costs_signed) for o in arch)
     a2 = sorted(tuple(o.costs_signed) for o in arch2)
